@@ -320,8 +320,12 @@ class Ctx:
               'violations': len(self.violations)}
         if self.notes:
             ev['coverage']['notes'] = self.notes
-        os.makedirs(os.path.join(VERIF, 'evidence'), exist_ok=True)
-        with open(os.path.join(VERIF, 'evidence', self.pid + '.json'), 'w') as f:
+        # evidence describes runs against /repo's tree; a development run against an overlay (candidate change)
+        # or with VERIF_EVIDENCE_DIR set writes elsewhere
+        evdir = os.environ.get('VERIF_EVIDENCE_DIR') or (
+            os.path.join(os.environ.get('TMPDIR', '/tmp'), 'verif_evidence_overlay') if os.environ.get('VERIF_OVERLAY') else os.path.join(VERIF, 'evidence'))
+        os.makedirs(evdir, exist_ok=True)
+        with open(os.path.join(evdir, self.pid + '.json'), 'w') as f:
             json.dump(ev, f, indent=1, default=list)
         self.cleanup()
         self.log('done: violations=%d known=%d wall=%.1fs' % (len(self.violations), len(self.known_hits), time.time() - self.t0))
